@@ -615,6 +615,20 @@ class RecipeRun:
         W = self.W
         k = c['c']
         if k == 'fill_to':
+            # a fill to (nearly) the level the vessel already has is a request on a feasibility boundary: a target below the
+            # current total is refused, and how the current total compares with it is known only to the vessel's rounding
+            # (a top-up to exactly the declared level); min_margin_rel tells the cross-configuration comparison (C18)
+            try:
+                value, unit = M.parse_quantity(c['q'])
+                o = cur.get(c['tgt'][0])
+                m = self.model_of(o) if o is not None else None
+                if m is not None and value > 0:
+                    vessels = [m] if isinstance(m, M.MVessel) else [m.well(cell) for cell in m.all_cells()]
+                    for v in vessels:
+                        T = W.model.total(v, unit)
+                        self.min_margin_rel = min(self.min_margin_rel, abs(T - value) / max(T, value))
+            except (M.ModelError, KeyError, ValueError, ZeroDivisionError):
+                pass
             if self.had_fill or self.noise_rel > 0 or self.abs_noise:
                 # a fill adds (target - current total): whatever deviation the vessel's *total* carries from upstream (a doubled
                 # fill_to earlier, ratios taken from its result) lands, one to one, in the amount of filler added - however
